@@ -383,13 +383,14 @@ def _split_call(callx):
 # ----------------------------------------------------------------------------- functions
 class Fn:
     __slots__ = ("name", "crate", "params", "ret", "locals", "raw_blocks", "_blocks", "promoted",
-                 "header", "is_const", "closure_tag", "sig")
+                 "header", "is_const", "closure_tag", "sig", "closures")
 
     def __init__(self, name, crate):
         self.name, self.crate = name, crate
         self.params, self.ret, self.locals = [], None, {}
         self.raw_blocks, self._blocks, self.promoted = {}, {}, {}
         self.header, self.is_const, self.closure_tag = "", False, None
+        self.closures = {}
 
     def block(self, bb):
         b = self._blocks.get(bb)
@@ -495,6 +496,11 @@ def parse_file(path, crate):
                 # macro-generated impls share one `<impl at ..>` location: keep all of them
                 key = f"{f.name}#{len(fns)}"
             fns[key] = f
+            if f.closure_tag:
+                cm = re.fullmatch(r"(.+)::\{closure#\d+\}", f.name)
+                par = last_by_name.get(cm.group(1)) if cm else None
+                if par is not None:
+                    par.closures.setdefault(f.closure_tag, f)
             last_by_name[f.name] = f
     # simple consts:  const NAME: TY = const 100_usize;
     for m in re.finditer(r"^const ([^\n]+) = const ([^\n]+);$", txt, re.M):
